@@ -142,6 +142,32 @@ theorem C04_cancel_never_succeeds {c : Conf} (h : Reach C O st0 script picks c) 
   · exact Or.inr (hh.checked (Or.inr hd) hf)
   · exact Or.inl (hh.doneFirst hd hf)
 
+/-- a context never becomes live again: once `ctx.Done()` has fired it stays fired, whatever happens
+next (true of every `context.Context`; the harness's cancellation `Cn` is of this form) -/
+def MonotoneCancel (O : Oracle) : Prop := ∀ tr e, O.cancel tr = true → O.cancel (e :: tr) = true
+
+theorem MonotoneCancel.append {O : Oracle} (hm : MonotoneCancel O) (l₁ l₂ : List Ev)
+    (h : O.cancel l₂ = true) : O.cancel (l₁ ++ l₂) = true := by
+  induction l₁ with
+  | nil => exact h
+  | cons e l ih => exact hm _ e ih
+
+/-- **cancellation, at every instant** (review A, C04-5): for a context that never becomes live again
+(`MonotoneCancel`), if success is reported the context was not done at **any** point of the run — after
+no prefix of the events (`l₂` is the trace up to some instant, `l₁` what followed) — unless the session
+was already ready on entry. Without monotonicity `C04_cancel_never_succeeds` only speaks about the final
+trace. -/
+theorem C04_cancel_never_succeeds_prefix {c : Conf} (h : Reach C O st0 script picks c)
+    (hm : MonotoneCancel O) (hd : c.pc = .done) :
+    has st0 bReady = true ∨ ∀ l₁ l₂, c.tr = l₁ ++ l₂ → O.cancel l₂ = false := by
+  rcases C04_cancel_never_succeeds h hd with h0 | hc
+  · exact Or.inl h0
+  · refine Or.inr fun l₁ l₂ ht => ?_
+    cases hl : O.cancel l₂
+    · rfl
+    · have := hm.append l₁ l₂ hl
+      rw [← ht, hc] at this; cases this
+
 /-- **after cancellation every I/O operation fails** (the watcher moves both deadlines of the
 connection into the past): one step from a cancelled configuration never logs a successful
 read or write -/
@@ -162,6 +188,12 @@ def quiet : Oracle :=
   { neg := fun _ _ _ => ⟨0, false, false⟩, list := fun _ _ _ => ⟨false, false⟩,
     parseErr := fun _ _ _ => false, fault := fun _ => false, cancel := fun _ => false,
     block := fun _ => false, dlRd := true, dlWr := true, layer := fun _ _ => false }
+
+-- the hypothesis is satisfiable by a cancellation that really happens: "done once 4 events were seen"
+example : MonotoneCancel { quiet with cancel := fun tr => decide (4 ≤ tr.length) } := by
+  intro tr e h
+  simp only [decide_eq_true_eq, List.length_cons] at h ⊢
+  omega
 
 
 
